@@ -14,7 +14,7 @@ from functools import lru_cache
 import itertools as itt
 
 from ..builder import NAMES3, build_ops, replay_sequence, run_sequences
-from ..ctf import events2, base_assignments, event_json, event_from_json, events, ground_items, node_to_item, to_event
+from ..ctf import events2, events3w, base_assignments, event_json, event_from_json, events, ground_items, node_to_item, to_event
 from ..fscm import FSCM
 from ..graphs import G, enum_L, enum_O, is_acyclic
 from ..runner import Res
@@ -33,9 +33,12 @@ def _universe(tier):
 def event_space(g: G, tier):
     n = len(g.nodes)
     if n <= 3:
+        # three-world triples (three non-reflexive items with pairwise different non-empty intervention sets): a world that
+        # is neither first nor last in any order of the worlds exists only here (seeded changes C07-f, C08-h)
+        three = events3w(g.nodes) if n == 3 else ()
         if tier == "quick":
-            return events2(g.nodes)
-        return itt.chain(events(g.nodes, 2, 3, 2), (e for e in events2(g.nodes) if len(e) == 3))
+            return itt.chain(events2(g.nodes), three)
+        return itt.chain(events(g.nodes, 2, 3, 2), (e for e in events2(g.nodes) if len(e) == 3), three)
     return events(g.nodes, 2, 2, 1)
 
 
@@ -74,6 +77,8 @@ def describe(tier):
             else "graphs L(1..3) all labelled ADMGs (single items with up to 3 subscripts, pairs with up to 2 each) + O(4, <=3 "
             "edges) (singles up to 2, pairs up to 1)"
         )
+        + "; three-node graphs also with three-world triples (three non-reflexive all-'-' items with pairwise different non-empty "
+        "intervention sets)"
         + "; subscripts may include the variable itself; values - and +; every base value assignment; plus every sequence of 3 "
         "edge insertions over 3 names on one live graph object, the construction asked for every non-reflexive event of up to "
         "two items (up to one subscript each) after every insertion",
